@@ -38,6 +38,8 @@ ASSUMPTIONS = [
     'operands are handed over as fresh C-contiguous arrays or (1/3) as transposed views X.T; after the call the operand must be bit-identical to what was passed (the equations are statements about the curve the caller holds)',
     'out= of the class methods UTPM.dot/outer/inv/solve (1/4 of the cases): zeros, non-zero garbage, and solve(A, x, out=x); return value and buffer contents must satisfy the same oracle; UTPM.inv(out=...) raises NotImplementedError = declared rejection',
     'complex coefficient data only where the kernels of this tree handle it: dot, outer (the operand that fixes the result dtype complex), inv, solve with a UTPM right-hand side, trace, expm; det/logdet and solve(UTPM, ndarray) raise UFuncTypeError for complex data (float work arrays) -- documented in notes/C07.md, not asserted',
+    'expm:small-base:high-order: D = 7..10 with ||A_0||_1 = 0, 1e-3..0.0149, ..0.2, ..0.5 (every direction in the same class) and a dense A_1: Pade-7 is accurate there for all d < 15, a lower-order approximant is not',
+    'one third of the cases with a plain ndarray operand (dot, outer, solve) make a second call with the SAME ndarray object refilled in place; the second result must satisfy the oracle for the new contents',
     'N-D trace, 0-d operands of dot are outside the domain',
     'mpmath, NumPy, SciPy/LAPACK are trusted',
 ]
